@@ -67,6 +67,7 @@ def writeChunks (t : Tier) (c : SetCmd) (token : Bytes) (dataSize : Nat) : Nat â
                          value := token ++ chunkPayload c.data dataSize i }
     match r with
     | .io => pure (.error .panic)
+    | .wfail => pure (.error .io)
     | .status s =>
       match decodeError s with
       | some e => pure (.error (.app e))
@@ -85,6 +86,7 @@ def setCommon (t : Tier) (now : Nat) (k : SetKind) (c : SetCmd) : Prog Îµ (HRes 
     let r â† Prog.req t { op := k.op, key := metaKey c.key, flags := c.flags, exptime := c.exptime, value := encodeMeta md }
     match r with
     | .io => pure (.error .panic)
+    | .wfail => pure (.error .io)
     | .status s =>
       match decodeError s with
       | some e => pure (.error (.app e))
@@ -126,6 +128,7 @@ def readStep (md : Meta) (s : ReadSt) (r : Resp) : ReadSt Ã— Bool :=
   match r with
   | .ok => ({ s with sawNoop := true }, false)
   | .io => ({ s with lastErr := some .io }, false)
+  | .wfail => ({ s with lastErr := some .io }, false)
   | .silent => (s, true)
   | .status c =>
     match decodeError c with
@@ -237,6 +240,7 @@ def delete (t : Tier) (c : KeyCmd) : Prog Îµ (HRes Unit) := do
     let dr â† Prog.req t { op := .delete, key := metaKey c.key }
     let res : HRes Unit := match dr with
       | .io => .error .io
+      | .wfail => .error .io
       | .status s => match decodeError s with
         | some e => .error (.app e)
         | none => .ok ()
@@ -260,6 +264,7 @@ def touch (t : Tier) (now : Nat) (c : KeyCmd) : Prog Îµ (HRes Unit) := do
       let r â† Prog.req t { op := .set, key := metaKey c.key, flags := md.origFlags, exptime := c.exptime, value := encodeMeta md' }
       match r with
       | .io => pure (.error .panic)
+      | .wfail => pure (.error .io)
       | .status s =>
         match decodeError s with
         | some e => pure (.error (.app e))
